@@ -313,6 +313,8 @@ class ExprMixin:
         c = self.deref(container)
         if isinstance(c, VOpt) and self.spec_mode:
             c = c.val
+        if isinstance(c, VNone) and self.spec_mode:
+            return z3.FreshConst(BOOL, "bottom")  # partial spec term under a (necessarily false) guard
         if isinstance(c, VStr):
             if isinstance(item, VOpt) and self.spec_mode:
                 item = item.val
